@@ -149,7 +149,7 @@ Definition monitor_call (p : prop_id) (u : universe) (earlier : list event) (f :
   | P06 => if c06_ok o then 0 else 61
   | _ =>
     match build_args defaults opts with
-    | None => 0
+    | None => if co_ok o then 76 else 0   (* C16: a nil or failing option is an error result, whatever the target *)
     | Some b =>
         match p with
         | P01 => if c01_ok u f b earlier o then 0 else 56
